@@ -153,3 +153,29 @@ Theorem C01_dec2flt_nearest :
            Qabs ((n # Z.to_pos dn) - inject_Z fm * pow2 fe) <= Qabs ((n # Z.to_pos dn) - y)))).
 Proof. exact dec2flt_nearest. Qed.
 Print Assumptions C01_dec2flt_nearest.
+
+(* separators: two tokens may touch whenever the second one announces itself (a number or a word directly followed by [ { or a quote); the stream theorems hold under this weaker, exact condition *)
+From Jawk Require Import Base Json Reader JsonParser Stream Printer Render Go GoProofs TouchProofs.
+
+Theorem C01_stream_touching :
+  forall (lead : ws) (l : list (sjson * ws)) (vs : list json),
+    stream_wf' lead l ->
+    Forall2 (fun (tw : sjson * ws) (v : json) => value_of (fst tw) = Some v) l vs ->
+    values_of_bytes (lead ++ render_stream l) = (vs, 0%N).
+Proof. exact values_of_stream_touching. Qed.
+Print Assumptions C01_stream_touching.
+
+Theorem C01_rows_touching :
+  forall (lead : ws) (l : list (sjson * ws)) (vs : list json),
+    stream_wf' lead l ->
+    Forall2 (fun (tw : sjson * ws) (v : json) => value_of (fst tw) = Some v) l vs ->
+    let g := go default_cfg [(None, map EB (lead ++ render_stream l))] true in
+    g_result g = GOk /\ g_events g = map (fun v : json => OOut (print_json OneLine false v ++ [10%N])) vs.
+Proof. exact go_default_rows_touching. Qed.
+Print Assumptions C01_rows_touching.
+
+(* the old condition implies the new one *)
+Theorem C01_separators_weaker :
+  forall (lead : ws) (l : list (sjson * ws)), stream_wf lead l -> stream_wf' lead l.
+Proof. exact stream_wf_weaker. Qed.
+Print Assumptions C01_separators_weaker.
